@@ -41,6 +41,9 @@ def shapes(tier, seed):
     for node, params, cons in sqlprogs.binary_programs(tier, 4):
         if "sort" in ops_of(node):
             out.append({"prog": node, "params": params, "cons": cons, "n": 2, "kind": "order"})
+    for node, params, cons in sqlprogs.nested_programs(tier, 4):
+        if "sort" in ops_of(node):
+            out.append({"prog": node, "params": params, "cons": cons, "n": 2, "kind": "order"})
     for node, params, cons in _buried():
         out.append({"prog": node, "params": params, "cons": cons, "n": 2, "kind": "buried"})
     return out
